@@ -23,7 +23,7 @@ type c07Step struct {
 	Op         string `json:"op"` // req | pause | resume | stop | redeploy
 	MaxPauseMs int    `json:"max_pause_ms,omitempty"`
 	Msg        string `json:"msg,omitempty"`
-	Kind       string `json:"kind,omitempty"` // req: plain | post | health-get | health-post | health-lookalike
+	Kind       string `json:"kind,omitempty"` // req: plain | cookie | post | health-get | health-post | health-lookalike
 }
 
 type c07Plan struct {
@@ -39,10 +39,10 @@ func c07Gen(t *rapid.T) c07Plan {
 	for i := 0; i < n; i++ {
 		at += rapid.SampledFrom([]int{0, 0, 1, 10, 99, 100, 101, 400}).Draw(t, "gap")
 		st := c07Step{AtMs: at}
-		st.Op = rapid.SampledFrom([]string{"req", "req", "req", "req", "pause", "pause", "resume", "stop", "redeploy"}).Draw(t, "op")
+		st.Op = rapid.SampledFrom([]string{"req", "req", "req", "req", "req", "pause", "pause", "resume", "stop", "redeploy", "rollout-deploy", "rollout-set", "rollout-stop"}).Draw(t, "op")
 		switch st.Op {
 		case "req":
-			st.Kind = rapid.SampledFrom([]string{"plain", "plain", "post", "health-get", "health-post", "health-lookalike"}).Draw(t, "kind")
+			st.Kind = rapid.SampledFrom([]string{"plain", "plain", "cookie", "cookie", "post", "health-get", "health-post", "health-lookalike"}).Draw(t, "kind")
 		case "pause":
 			st.MaxPauseMs = rapid.SampledFrom([]int{1, 100, 101, 500, 5000}).Draw(t, "max-pause")
 		case "stop":
@@ -99,8 +99,12 @@ func c07Run(t *testing.T, p c07Plan) (res vfResult) {
 			msg   string
 			set   int
 			idx   int
+			rset  int  // rollout target set in place (-1 none)
+			split bool // a 100% split is in force
 		}
 		state, failAfter, msg, cur := "running", time.Duration(0), "", 0
+		rset, split := -1, false
+		nsets := 1 // target sets are numbered in creation order: active and rollout sets share the numbering
 		var timeline []change
 		for i, st := range p.Steps {
 			at := t0 + vfMs(st.AtMs)
@@ -112,20 +116,38 @@ func c07Run(t *testing.T, p c07Plan) (res vfResult) {
 			case "stop":
 				state, msg = "stopped", st.Msg
 			case "redeploy":
-				cur++
+				cur = nsets
+				nsets++
+			case "rollout-deploy":
+				rset = nsets
+				nsets++
+			case "rollout-set":
+				if rset < 0 {
+					continue // rejected: no rollout targets
+				}
+				split = true
+			case "rollout-stop":
+				split = false
 			default:
 				continue
 			}
-			timeline = append(timeline, change{at: at, state: state, fail: failAfter, msg: msg, set: cur, idx: i})
+			timeline = append(timeline, change{at: at, state: state, fail: failAfter, msg: msg, set: cur, idx: i, rset: rset, split: split})
 		}
 		expect := func(i int) c07Expect {
 			st := p.Steps[i]
 			at := t0 + vfMs(st.AtMs)
 			// state at arrival: last change with idx < i
 			s, fa, m, set := "running", time.Duration(0), "", 0
+			cookie := st.Kind == "cookie"
+			pick := func(c change) int {
+				if cookie && c.split && c.rset >= 0 {
+					return c.rset
+				}
+				return c.set
+			}
 			for _, c := range timeline {
 				if c.idx < i {
-					s, fa, m, set = c.state, c.fail, c.msg, c.set
+					s, fa, m, set = c.state, c.fail, c.msg, pick(c)
 				}
 			}
 			isHealth := st.Kind == "health-get"
@@ -148,7 +170,7 @@ func c07Run(t *testing.T, p c07Plan) (res vfResult) {
 					break
 				}
 				if c.state == "running" {
-					return c07Expect{kind: "forward", at: c.at, set: c.set, tie: c.at == dl, held: true}
+					return c07Expect{kind: "forward", at: c.at, set: pick(c), tie: c.at == dl, held: true}
 				}
 				if c.state == "stopped" {
 					return c07Expect{kind: "stopped", at: c.at, msg: c.msg, tie: c.at == dl, held: true}
@@ -189,6 +211,9 @@ func c07Run(t *testing.T, p c07Plan) (res vfResult) {
 					path = DefaultHealthCheckPath + "/"
 				}
 				req := vfNewRequest(method, "svc.test", path, &vfCtl{ID: fmt.Sprintf("q%d", i)}, body)
+				if st.Kind == "cookie" {
+					req.Header.Set("Cookie", RolloutCookieName+"=anything")
+				}
 				reqs = append(reqs, reqObs{idx: i, pend: w.goDo(h, req), body: body})
 			case "pause":
 				if gateArmed {
@@ -229,6 +254,24 @@ func c07Run(t *testing.T, p c07Plan) (res vfResult) {
 			case "stop":
 				if cr := w.runCmd(func() error { return r.StopService("svc", 50*time.Millisecond, st.Msg) }); cr.Err != nil || cr.Panicked != "" {
 					res.failf("command-failed", "step %d stop: %v %s", i, cr.Err, cr.Panicked)
+					return
+				}
+			case "rollout-deploy":
+				set := mkSet()
+				if cr := w.runCmd(func() error { return r.SetRolloutTargets("svc", set, 5*time.Second, 50*time.Millisecond) }); cr.Err != nil || cr.Panicked != "" {
+					res.failf("command-failed", "step %d rollout deploy: %v %s", i, cr.Err, cr.Panicked)
+					return
+				}
+				res.label("rollout-op")
+			case "rollout-set":
+				cr := w.runCmd(func() error { return r.SetRolloutSplit("svc", 100, nil) })
+				if cr.Panicked != "" {
+					res.failf("command-failed", "step %d rollout set: %s", i, cr.Panicked)
+					return
+				}
+			case "rollout-stop":
+				if cr := w.runCmd(func() error { return r.StopRollout("svc") }); cr.Err != nil || cr.Panicked != "" {
+					res.failf("command-failed", "step %d rollout stop: %v %s", i, cr.Err, cr.Panicked)
 					return
 				}
 			case "redeploy":
@@ -283,10 +326,16 @@ func c07Run(t *testing.T, p c07Plan) (res vfResult) {
 				}
 				if !vfContains(sets[e.set], rp.Target) {
 					sig := "forwarded-to-wrong-set"
-					for j, s := range sets {
-						if j < e.set && vfContains(s, rp.Target) && arrivedPaused {
-							sig = "held-across-redeploy-reaches-replaced-targets"
+					// the listed finding: a request held across a REDEPLOY (the service object was replaced) is released to
+					// targets of the service it was routed to
+					redeployedWhileHeld := false
+					for _, c := range timeline {
+						if c.idx > ro.idx && c.at <= e.at && p.Steps[c.idx].Op == "redeploy" {
+							redeployedWhileHeld = true
 						}
+					}
+					if arrivedPaused && redeployedWhileHeld {
+						sig = "held-across-redeploy-reaches-replaced-targets"
 					}
 					res.failf(sig, "%s from the targets the service has at that moment %v; got %v", desc, sets[e.set], rp)
 					return
